@@ -182,6 +182,7 @@ func panicSite() string {
 }
 
 var debugPanics = os.Getenv("C23_DEBUG") != ""
+var errLog = os.Getenv("C23_ERRS") != ""
 
 func guarded(f func() string) (ans string) {
 	defer func() {
@@ -287,6 +288,9 @@ func (s *sut) grpc(p *Node, mut string) string {
 		}
 		resp, err := s.svc.Evaluate(context.Background(), &onWire)
 		if err != nil {
+			if errLog {
+				fmt.Fprintf(os.Stderr, "ERR %s\n", err.Error())
+			}
 			return "err"
 		}
 		if resp == nil || resp.Result == nil {
@@ -305,7 +309,13 @@ func (s *sut) direct(p *Node) string {
 		w := s.worlds.FindOrCreateWorld(b6.NewFeatureIDFromProto(s.root))
 		s.lock.RLock()
 		defer s.lock.RUnlock()
-		v, err := api.Evaluate(e, functions.NewContext(w))
+		ctx := functions.NewContext(w)
+		// what service.Evaluate fills in besides: without Worlds add-world-with-change dereferences nil,
+		// and with Cores = 0 accessible-all has nobody to hand its origins to and blocks forever - both
+		// are ways of building a Context, not requests, and are noted in notes/C23.md only
+		ctx.Worlds = s.worlds
+		ctx.Cores = 2
+		v, err := api.Evaluate(e, ctx)
 		if err != nil {
 			return "err"
 		}
@@ -345,6 +355,9 @@ func (st *state) eval(j int) string {
 // serve handles "<seed> <j> <skipmask>" (generated case) or "w <i>" (corpus witness i).
 func serve(req string) string {
 	setup()
+	if baseGoroutines < 0 {
+		baseGoroutines = runtime.NumGoroutine()
+	}
 	f := strings.Fields(req)
 	if len(f) == 2 && f[0] == "w" {
 		i, _ := strconv.Atoi(f[1])
@@ -381,7 +394,26 @@ func serve(req string) string {
 	}
 	ans := cur.eval(j)
 	cur.next = j + 1
-	return ans
+	return ans + leakSuffix()
+}
+
+var baseGoroutines = -1
+
+// leakSuffix reports goroutines that outlive the request (checked for up to ~60 ms): they would distort
+// the timing of the following requests, so the parent restarts the child.
+func leakSuffix() string {
+	if baseGoroutines < 0 {
+		return ""
+	}
+	n := runtime.NumGoroutine()
+	for i := 0; i < 6 && n > baseGoroutines; i++ {
+		time.Sleep(10 * time.Millisecond)
+		n = runtime.NumGoroutine()
+	}
+	if n > baseGoroutines {
+		return fmt.Sprintf(" +leak%d", n-baseGoroutines)
+	}
+	return ""
 }
 
 // ---- parent side ---------------------------------------------------------------------------------
@@ -430,6 +462,10 @@ func evalCase(w *Worker, seed uint64, n int) []string {
 	for j := 0; j < n; j++ {
 		t0 := time.Now()
 		ans := w.Ask(fmt.Sprintf("%d %d %d", seed, j, skip))
+		if i := strings.Index(ans, " +leak"); i >= 0 {
+			ans = ans[:i] + " +leak"
+			w.stop()
+		}
 		if d := time.Since(t0); slowLog && d > 500*time.Millisecond {
 			fmt.Fprintf(os.Stderr, "SLOW %v case %d req %d => %s\n", d, seed, j, ans)
 		}
@@ -470,6 +506,10 @@ func classOf(ans string) string {
 }
 
 func emit(c *hx.Ctx, world string, rq *request, ans string) {
+	if strings.HasSuffix(ans, " +leak") {
+		ans = strings.TrimSuffix(ans, " +leak")
+		c.Note("goroutines-outlive-request")
+	}
 	d, g := "-", ans
 	if i := strings.Index(ans, " ; "); i >= 0 {
 		d, g = ans[:i], ans[i+3:]
@@ -535,10 +575,21 @@ func runCase(c *hx.Ctx) {
 	}
 }
 
-const quickCases, thoroughCases = 2600, 40000
+const quickCases, thoroughCases = 2000, 30000
 
 func main() {
 	if ServeIfWorker(serve) {
+		return
+	}
+	if many := os.Getenv("C23_MANY"); many != "" { // debugging aid: evaluate cases 0..n-1 of seed 1 in-process
+		n, _ := strconv.Atoi(many)
+		for no := 0; no < n; no++ {
+			seed := caseSeedFor(1, no)
+			cs := genCase(seed)
+			for j := range cs.reqs {
+				serve(fmt.Sprintf("%d %d 0", seed, j))
+			}
+		}
 		return
 	}
 	if one := os.Getenv("C23_ONE"); one != "" { // debugging aid: "<runSeed> <caseNo> <j>" evaluated in-process
@@ -581,7 +632,7 @@ func main() {
 	}
 	hx.Main(hx.Family{
 		Name: "c23",
-		Rule: "1-4 requests per case on one service instance (empty world 1/6, OSM town otherwise; 1/3 with a non-empty overlay layer); each request is an expression tree over the whole registered function table (read by reflection): a call of a uniformly chosen function with arguments generated per Go parameter type (literals with edge values: negative/huge ints, NaN/Inf floats, invalid/missing/mistyped feature IDs, empty and degenerate geometries, queries of every constructor, literal collections incl. mixed/duplicate/unhashable entries; calls of any function whose result feeds the type; lambdas, partial applications, function symbols and queries for function types, 1/12 with a wrong arity; 1/14 an argument of a wrong sort; dropped/extra/swapped arguments), collection pipelines, lambda calls; 1/12 requests damaged at the wire level (a message field cleared, no request, bad root, bad version). Every request goes through proto.Marshal/Unmarshal and the real grpc service.Evaluate; half also through api.Evaluate with functions.NewContext. non-trivial = a request uses >= 2 library functions or a lambda; distinct = by hash of the case text",
+		Rule: "1-4 requests per case on one service instance (empty world 1/6, OSM town otherwise; 1/3 with a non-empty overlay layer); each request is an expression tree over the whole registered function table (read by reflection): a call of a uniformly chosen function with arguments generated per Go parameter type (literals with edge values: negative/huge ints, NaN/Inf floats, invalid/missing/mistyped feature IDs, empty and degenerate geometries, queries of every constructor, literal collections incl. mixed/duplicate/unhashable entries; calls of any function whose result feeds the type; lambdas, partial applications, function symbols and queries for function types, 1/12 with a wrong arity; 1/30 an argument of a wrong sort; dropped/extra/swapped arguments), collection pipelines, lambda calls; 1/12 requests damaged at the wire level (a message field cleared, no request, bad root, bad version). Every request goes through proto.Marshal/Unmarshal and the real grpc service.Evaluate; half also through api.Evaluate with functions.NewContext. non-trivial = a request uses >= 2 library functions or a lambda; distinct = by hash of the case text",
 		Quick:    quickCases,
 		Thorough: thoroughCases,
 		Corpus: func(c *hx.Ctx) {
